@@ -32,6 +32,15 @@ META = {
         "element was compared; distinct = distinct (program, class) pairs.",
         (1500, 1200, 20000, 10000),
     ),
+    "C03": _m(
+        "exploration",
+        "cases = (registered testcase, configuration) with configuration in {own, opset 21, opset 24, return_mode='ir'} "
+        "(quick: first two testcases per component at their own configuration + the other configurations on a 1/8 sample; "
+        "thorough: all variants x all configurations) + generated nested programs. Each export is checked by "
+        "onnx.checker(full_check), strict shape inference, ORT session construction and the independent scope/SSA/function "
+        "walker. evaluations = exports checked; non-trivial = export produced a model with >= 1 node; distinct = (program, configuration).",
+        (1200, 1200, 8000, 8000),
+    ),
 }
 
 _NOTE = ("Trusted base: onnxruntime 1.30 CPU, onnx 1.22 (checker, inference, schemas), numpy/ml_dtypes, eager JAX 0.11 as "
@@ -42,6 +51,12 @@ MANIFEST_TEXT = {
         "technique": "differential runtime monitor: ORT execution of each export vs eager JAX on class-pure hostile inputs, adaptive numeric oracle",
         "design_ref": "DESIGN.md 2.2-2.4, 3/C01",
         "level_text": "Exploration: every registered component (live from the working tree), sentinel programs for the value-dependent lowerings and generated compositions are exported and executed on hostile value classes; the oracle compares count, shape, dtype class, ints bit-exactly and floats within a tolerance derived from JAX's own measured f32 error and conditioning. Holds only for the executions observed.",
+        "level_note": _NOTE,
+    },
+    "C03": {
+        "technique": "artefact invariant monitor: onnx checker(full) + strict inference + ORT load + independent scope/SSA/function-signature walker over every export",
+        "design_ref": "DESIGN.md 2.5, 3/C03",
+        "level_text": "Exploration: every registered component and generated nested programs are exported under several configurations and each ModelProto is checked by four independent predicates. ORT environment limits (missing kernels, opset > 24) are inconclusive, never violations.",
         "level_note": _NOTE,
     },
 }
